@@ -323,6 +323,7 @@ type Q struct {
 	Ty   int      `json:"ty"`
 	S    string   `json:"s"`
 	Sel  []string `json:"sel"`
+	L    [][]int  `json:"l"` // list answer: methods [rf, ri, rj]; struct closure [rf, kind (1 struct, 2 union, 3 exception), ri]
 	Err  string   `json:"err"`
 }
 
@@ -581,6 +582,51 @@ func (w *World) Run(q *Q) {
 			return
 		}
 		q.RF, q.RI, q.RJ = w.identifyMethod(fd.Services[q.N-1].GetMethodByName(q.S))
+	case "allmethods", "methodfromall": // service n of f: GetAllMethods() / GetMethodByNameFromAll(S)
+		fd := w.fd(q.F)
+		if fd == nil || q.N < 1 || q.N > len(fd.Services) {
+			q.Err = "nofd"
+			return
+		}
+		if q.Q == "methodfromall" {
+			q.RF, q.RI, q.RJ = w.identifyMethod(fd.Services[q.N-1].GetMethodByNameFromAll(q.S))
+			return
+		}
+		q.L = [][]int{}
+		for _, m := range fd.Services[q.N-1].GetAllMethods() {
+			a, b, c := w.identifyMethod(m)
+			q.L = append(q.L, []int{a, b, c})
+		}
+	case "closure": // struct n of f: registry.LookupIncludedStructsFromStruct
+		fd := w.fd(q.F)
+		if fd == nil || q.N < 1 || q.N > len(fd.Structs) {
+			q.Err = "nofd"
+			return
+		}
+		sds, err := w.GD.LookupIncludedStructsFromStruct(fd.Structs[q.N-1])
+		if err != nil {
+			q.Err = "error: " + err.Error()
+			return
+		}
+		q.L = [][]int{}
+		for _, sd := range sds {
+			e := []int{-1, 0, -1}
+			for kc, k := range []string{"struct", "union", "exception"} {
+				if a, b := w.identify(k, sd); a > 0 {
+					e = []int{a, kc + 1, b}
+					break
+				}
+			}
+			q.L = append(q.L, e)
+		}
+		sort.Slice(q.L, func(i, j int) bool {
+			for x := 0; x < 3; x++ {
+				if q.L[i][x] != q.L[j][x] {
+					return q.L[i][x] < q.L[j][x]
+				}
+			}
+			return false
+		})
 	case "parent": // service n of f: GetParent()
 		fd := w.fd(q.F)
 		if fd == nil || q.N < 1 || q.N > len(fd.Services) {
